@@ -23,7 +23,7 @@ pub fn show(h: &[Ev]) -> String {
         .join(",")
 }
 
-#[derive(Clone, Copy, Debug)]
+#[derive(Clone, Copy, Debug, PartialEq)]
 pub enum Cfg {
     Ewma(f32),
     Ma(i64),
@@ -77,6 +77,84 @@ pub fn run_real(cfg: Cfg, h: &[Ev], t0: i64) -> Vec<(u32, Obs, u32, Obs)> {
         Cfg::Ma(w) => drive!(MovingAverageStream::new(rf(&inf), Time(w)), MovingAverageStream::new(rf(&inq), Time(w))),
     }
     out
+}
+
+/// Two filters with *different* parameters alive at once, fed the same history in lockstep
+/// (A.update, B.update, read both): the f32 outputs of each must be those of its solo run. Shared
+/// state (a memo keyed by the interval only, a static weight) breaks this.
+pub fn twin_history(ca: Cfg, cb: Cfg, h: &[Ev], e: &mut Eng) -> u64 {
+    let t0 = 7 * S;
+    let r = guard(|| {
+        let solo_a = run_real(ca, h, t0);
+        let solo_b = run_real(cb, h, t0);
+        let ia = rc(Scr::<f32>::new(Ok(None)));
+        let ib = rc(Scr::<f32>::new(Ok(None)));
+        let mk = |c: Cfg, i: &std::rc::Rc<std::cell::RefCell<Scr<f32>>>| -> Box<dyn TwinFilter> {
+            match c {
+                Cfg::Ewma(s) => Box::new(EWMAStream::new(rf(i), s)),
+                Cfg::Ma(w) => Box::new(MovingAverageStream::new(rf(i), Time(w))),
+            }
+        };
+        let mut a = mk(ca, &ia);
+        let mut b = mk(cb, &ib);
+        let mut t = t0;
+        let mut both = Vec::new();
+        for (k, ev) in h.iter().enumerate() {
+            let next: Output<f32, E> = match ev {
+                Ev::P(d, v) => {
+                    t += d;
+                    Ok(Some(Datum::new(Time(t), *v)))
+                }
+                Ev::N => Ok(None),
+                Ev::Er => Err(err_at(k)),
+            };
+            ia.borrow_mut().next = next.clone();
+            ib.borrow_mut().next = next;
+            let ua = obs_unit(&a.upd());
+            let ub = obs_unit(&b.upd());
+            let gb = b.read();
+            let ga = a.read();
+            both.push((ua, ga, ub, gb));
+        }
+        (solo_a, solo_b, both)
+    });
+    e.checks += h.len() as u64;
+    match r {
+        Err(m) => e.violation("filter:twins-panic", h.len(), || format!("{:?} and {:?} in lockstep on [{}] panicked: {}", ca, cb, show(h), m)),
+        Ok((sa, sb, both)) => {
+            for k in 0..h.len() {
+                let (ua, ga, ub, gb) = both[k];
+                if (ua, ga) != (sa[k].0, sa[k].1) || (ub, gb) != (sb[k].0, sb[k].1) {
+                    e.violation("filter:instances-interfere", k + 1, || {
+                        format!("{:?} and {:?} fed [{}] in lockstep: at event {} they give {} and {} but alone they give {} and {}", ca, cb, show(&h[..=k]), k, ga.show(), gb.show(), sa[k].1.show(), sb[k].1.show())
+                    });
+                    break;
+                }
+            }
+            e.outcome(h64(&both));
+        }
+    }
+    (4 * h.len()) as u64
+}
+trait TwinFilter {
+    fn upd(&mut self) -> NothingOrError<E>;
+    fn read(&self) -> Obs;
+}
+impl<G: Getter<f32, E> + ?Sized> TwinFilter for EWMAStream<f32, G, E> {
+    fn upd(&mut self) -> NothingOrError<E> {
+        self.update()
+    }
+    fn read(&self) -> Obs {
+        obs(&self.get())
+    }
+}
+impl<G: Getter<f32, E> + ?Sized> TwinFilter for MovingAverageStream<f32, G, E> {
+    fn upd(&mut self) -> NothingOrError<E> {
+        self.update()
+    }
+    fn read(&self) -> Obs {
+        obs(&self.get())
+    }
 }
 
 pub fn check_history(cfg: Cfg, h: &[Ev], e: &mut Eng) -> u64 {
@@ -364,5 +442,29 @@ pub fn run(ctx: &Ctx) -> Vec<Eng> {
             }
         });
     }
-    vec![e1, e2, e3, e4]
+    let tdepth = if ctx.thorough { 4 } else { 3 };
+    let mut e5 = Eng::new(
+        "c12-interleaved-twins",
+        "two filters with different parameters alive at once and fed the same history in lockstep: every history of `depth` events x every ordered pair of distinct filter configurations (4 windows, 4 smoothing constants): the outputs of each must be those of its solo run (state shared between instances - a memo keyed by the interval only - breaks this)",
+        &format!("depth {} => {}^{} histories x 56 configuration pairs", tdepth, sy.len(), tdepth),
+    );
+    {
+        let cf = cfgs();
+        let mut pairs: Vec<(Cfg, Cfg)> = Vec::new();
+        for &a in &cf {
+            for &b in &cf {
+                if a != b {
+                    pairs.push((a, b));
+                }
+            }
+        }
+        for (ca, cb) in pairs {
+            par_seqs(&mut e5, sy.len(), tdepth, budget, |seq, e| {
+                let h: Vec<Ev> = seq.iter().map(|&s| sy[s]).collect();
+                e.nontrivial += 1;
+                twin_history(ca, cb, &h, e)
+            });
+        }
+    }
+    vec![e1, e2, e3, e4, e5]
 }
